@@ -248,11 +248,19 @@ func (s *c09Sched) handle(point string, args ...interface{}) {
 	if info.code == "bc" && s.bcasting > 0 {
 		s.bcasting--
 	}
-	for spin := 0; (info.code == "bw" || info.code == "aw") && s.bcasting > 0 && s.recording && spin < 20000; spin++ {
-		// bounded: a polling loop raises the gate again and again; after the bound the record is taken
-		// anyway (the validator then resolves the order by its alternatives)
+	for spin, t0 := 0, time.Now(); (info.code == "bw" || info.code == "aw") && s.bcasting > 0 && s.recording; spin++ {
+		// bounded (2 s): the gate is only up while a broadcaster is between its pre hook and its record — a
+		// few instructions unless that goroutine is descheduled; after the bound the record is taken anyway
+		// (the validator then resolves the order by its alternatives)
+		if spin > 1000 && time.Since(t0) > 2*time.Second {
+			break
+		}
 		s.mu.Unlock()
-		runtime.Gosched()
+		if spin < 1000 {
+			runtime.Gosched()
+		} else {
+			time.Sleep(20 * time.Microsecond)
+		}
 		s.mu.Lock()
 	}
 	text := info.code
